@@ -4,7 +4,7 @@
 use crate::mock::MockIdealGas;
 use feos::pcsaft::{PcSaft, PcSaftParameters, PcSaftRecord};
 use feos_core::parameter::{Parameter, PureRecord};
-use feos_core::{Contributions, DensityInitialization, EquationOfState, ReferenceSystem, SolverOptions, State};
+use feos_core::{Contributions, DensityInitialization, EquationOfState, ReferenceSystem, Residual, SolverOptions, State};
 use feos_verif::configs::{params, Rng};
 use ndarray::arr1;
 use quantity::*;
@@ -35,6 +35,46 @@ fn hint_name(i: usize) -> &'static str {
 }
 fn hint(i: usize) -> DensityInitialization {
     [DensityInitialization::None, DensityInitialization::Vapor, DensityInitialization::Liquid][i]
+}
+
+/// independent search for the stable-branch roots of p(rho) = p at fixed T through State::new_nvt only (no density
+/// iteration, no hints): sign changes of p(rho) - p with positive slope on a log grid, refined by bisection.
+/// Returns (lowest root, highest root) in mol/m3.
+fn scan_roots(eos: &Arc<Eos>, t: Temperature, p: Pressure, moles: &Moles<ndarray::Array1<f64>>) -> Option<(f64, f64)> {
+    let m3 = METER.powi::<typenum::P3>();
+    let n = moles.sum();
+    let rmax = eos.max_density(Some(moles)).ok()?.convert_to(MOL / m3);
+    let pt = p.convert_to(PASCAL);
+    let f = |r: f64| -> f64 {
+        match State::new_nvt(eos, t, n / (r * MOL / m3), moles) {
+            Ok(s) => s.pressure(Contributions::Total).convert_to(PASCAL) - pt,
+            Err(_) => f64::NAN,
+        }
+    };
+    let ng = 240;
+    let lo = 1e-8 * rmax;
+    let grid: Vec<f64> = (0..=ng).map(|i| lo * (rmax / lo).powf(i as f64 / ng as f64)).collect();
+    let vals: Vec<f64> = grid.iter().map(|r| f(*r)).collect();
+    let mut roots = Vec::new();
+    for i in 0..ng {
+        if vals[i] < 0.0 && vals[i + 1] >= 0.0 {
+            let (mut a, mut b) = (grid[i], grid[i + 1]);
+            for _ in 0..70 {
+                let m = 0.5 * (a + b);
+                if f(m) < 0.0 {
+                    a = m
+                } else {
+                    b = m
+                }
+            }
+            roots.push(0.5 * (a + b));
+        }
+    }
+    if roots.is_empty() {
+        None
+    } else {
+        Some((roots[0], roots[roots.len() - 1]))
+    }
 }
 
 pub struct SweepOut {
@@ -120,29 +160,37 @@ pub fn run(seed: u64, nrec: usize, ntp: usize, newton_every: usize) -> SweepOut 
                     }
                 }
             }
-            // root rules
+            // root rules, against roots located independently of the density iteration
             if let (Some(n), Some(v), Some(l)) = (&found[0], &found[1], &found[2]) {
-                let (rv, rl, rn) = (v.density.convert_to(MOL / METER.powi::<typenum::P3>()), l.density.convert_to(MOL / METER.powi::<typenum::P3>()),
-                    n.density.convert_to(MOL / METER.powi::<typenum::P3>()));
-                if (rv - rl).abs() > 1e-6 * rl.abs() {
-                    n_two_roots += 1;
-                    if !(rv < rl) {
-                        failures.push(json!({"kind": "hint_branch", "record": name, "T_over_Tc": tr, "p_over_pc": prr,
-                            "rho_vapor_hint": rv, "rho_liquid_hint": rl}));
-                    }
-                    let gv = v.residual_gibbs_energy().convert_to(JOULE);
-                    let gl = l.residual_gibbs_energy().convert_to(JOULE);
-                    let gn = n.residual_gibbs_energy().convert_to(JOULE);
-                    n_gibbs += 1;
-                    let gmin = gv.min(gl);
-                    if !(gn <= gmin + 1e-9 * (gv.abs() + gl.abs() + 1.0)) {
-                        failures.push(json!({"kind": "gibbs_root", "record": name, "T_over_Tc": tr, "p_over_pc": prr,
-                            "T_K": t.convert_to(KELVIN), "p_Pa": p.convert_to(PASCAL),
-                            "g_res_vapor": gv, "g_res_liquid": gl, "g_res_returned": gn, "rho_returned": rn, "rho_vapor": rv, "rho_liquid": rl}));
-                    }
-                    if samples.len() < 4 {
-                        samples.push(json!({"record": name, "T_over_Tc": tr, "p_over_pc": prr, "rho_vapor": rv, "rho_liquid": rl, "rho_none": rn,
-                            "g_res_vapor": gv, "g_res_liquid": gl}));
+                let m3 = METER.powi::<typenum::P3>();
+                let (rv, rl, rn) = (v.density.convert_to(MOL / m3), l.density.convert_to(MOL / m3), n.density.convert_to(MOL / m3));
+                if let Some((r_lo, r_hi)) = scan_roots(&eos, t, p, &moles) {
+                    if r_lo < 0.9 * r_hi {
+                        n_two_roots += 1;
+                        let near = |a: f64, b: f64| (a - b).abs() <= 1e-6 * b.abs();
+                        if !near(rv, r_lo) || !near(rl, r_hi) {
+                            failures.push(json!({"kind": "hint_branch", "record": name, "T_over_Tc": tr, "p_over_pc": prr,
+                                "T_K": t.convert_to(KELVIN), "p_Pa": p.convert_to(PASCAL),
+                                "rho_vapor_hint": rv, "rho_liquid_hint": rl, "vapor_root_scan": r_lo, "liquid_root_scan": r_hi}));
+                        }
+                        let sv = State::new_nvt(&eos, t, moles.sum() / (r_lo * MOL / m3), &moles).unwrap();
+                        let sl = State::new_nvt(&eos, t, moles.sum() / (r_hi * MOL / m3), &moles).unwrap();
+                        let gv = sv.residual_gibbs_energy().convert_to(JOULE);
+                        let gl = sl.residual_gibbs_energy().convert_to(JOULE);
+                        n_gibbs += 1;
+                        let margin = 1e-7 * (gv.abs() + gl.abs() + 1.0);
+                        let expect = if gv < gl - margin { Some(r_lo) } else if gl < gv - margin { Some(r_hi) } else { None };
+                        if let Some(e) = expect {
+                            if !near(rn, e) {
+                                failures.push(json!({"kind": "gibbs_root", "record": name, "T_over_Tc": tr, "p_over_pc": prr,
+                                    "T_K": t.convert_to(KELVIN), "p_Pa": p.convert_to(PASCAL),
+                                    "g_res_vapor_root": gv, "g_res_liquid_root": gl, "rho_returned": rn, "rho_vapor_root": r_lo, "rho_liquid_root": r_hi}));
+                            }
+                        }
+                        if samples.len() < 4 {
+                            samples.push(json!({"record": name, "T_over_Tc": tr, "p_over_pc": prr, "rho_vapor_root": r_lo, "rho_liquid_root": r_hi,
+                                "rho_none_hint": rn, "g_res_vapor": gv, "g_res_liquid": gl}));
+                        }
                     }
                 }
             }
